@@ -1,6 +1,6 @@
 (* C17 - property theorems only. *)
 From Coq Require Import String List.
-Require Import PV.Json PV.PatchSet PV.gen.FactsC17.
+Require Import PV.Json PV.PatchSet PV.gen.FactsC17 PV.gen.PatchSetGen PV.TiePatchSet.
 Import ListNotations.
 
 (* tie to the source: the lookup table starts empty, digests are taken of the key-sorted dump *)
@@ -31,6 +31,43 @@ Proof. exact verify_recorded_iff_same. Qed.
 Theorem C17_canon_idempotent : forall a, wfj a -> canon (canon a) = canon a.
 Proof. exact canon_idem. Qed.
 
+
+(* ---- tie to the source: the functions of pyhf/patchset.py and pyhf/utils.py translated to Gallina on every run (coq/gen/PatchSetGen.v,
+   written by harness/props/c17_tie.py; the reading of the python values is stated in the header of that file) are the hand model ---- *)
+(* utils.digest: the hash of the key-sorted tree; ValueError exactly for an algorithm hashlib does not provide *)
+Theorem C17_source_is_model_digest : forall (H : string -> json -> string) (known : string -> bool) obj alg,
+  gen_digest H known obj alg = if known alg then Ok (digest H alg obj) else Err PyValueError.
+Proof. exact tie_digest. Qed.
+(* PatchSet.__init__: the loop over the patch documents with its three refusals, both keys registered per patch *)
+Theorem C17_source_is_model_patchset_init : forall labels ps,
+  gen_patchset_init labels ps = init_view (length ps) (construct patchset_init_keys (length labels) ps).
+Proof. rewrite C17_init_empty. exact tie_patchset_init. Qed.
+(* PatchSet.__getitem__: list keys looked up as tuples, any miss is InvalidPatchLookup *)
+Theorem C17_source_is_model_getitem : forall t k,
+  got_view (gen_getitem t k) = getitem t (key_of k) /\ (forall e, gen_getitem t k = Err e -> e = InvalidPatchLookup).
+Proof. exact tie_getitem. Qed.
+(* PatchSet.verify: every recorded digest compared in order, first mismatch raises (all listed algorithms known: the model's verify) *)
+Theorem C17_source_is_model_verify : forall (H : string -> json -> string) (known : string -> bool) ds ws,
+  gen_verify H known ds ws = verify_x H known ds ws /\
+  ((forall a d, In (a, d) ds -> known a = true) ->
+   gen_verify H known ds ws = match verify H ds ws with None => Ok tt | Some _ => Err PatchSetVerificationError end).
+Proof. intros H known ds ws. split; [apply tie_verify|apply tie_verify_model]. Qed.
+(* Patch.apply: jsonpatch on a private deep copy of the stored operations, never in place (both enforced by the translator) *)
+Theorem C17_source_is_model_patch_apply : forall jpatch ops obj, gen_patch_apply jpatch ops obj = jpatch ops obj.
+Proof. exact tie_patch_apply. Qed.
+(* PatchSet.apply: verify, then look up, then patch the verified workspace, then Workspace(..) *)
+Theorem C17_source_is_model_apply : forall H known jpatch mkws ps ds t ws k,
+  gen_apply H known jpatch mkws ps ds t ws k = apply_model H known jpatch mkws ps ds t ws k.
+Proof. exact tie_apply. Qed.
+Theorem C17_apply_is_patch_of_verified : forall H known jpatch mkws ps ds t ws k w, (forall a d, In (a, d) ds -> known a = true) ->
+  gen_apply H known jpatch mkws ps ds t ws k = Ok w ->
+  verify H ds ws = None /\
+  exists i d, getitem t (key_of k) = GPatch i /\ jpatch (ps_ops (nth i ps dflt_pspec)) ws = Ok d /\ mkws d = Ok w.
+Proof. exact apply_is_patch_of_verified. Qed.
+Theorem C17_apply_refuses_unverified : forall H known jpatch mkws ps ds t ws k alg, (forall a d, In (a, d) ds -> known a = true) ->
+  verify H ds ws = Some alg -> gen_apply H known jpatch mkws ps ds t ws k = Err PatchSetVerificationError.
+Proof. exact apply_refuses_unverified. Qed.
+
 Print Assumptions C17_accepts_iff_distinct.
 Print Assumptions C17_lookup_exact.
 Print Assumptions C17_other_key_raises.
@@ -39,3 +76,11 @@ Print Assumptions C17_digest_key_order_insensitive.
 Print Assumptions C17_digest_value_sensitive.
 Print Assumptions C17_verify_recorded_iff_same.
 Print Assumptions C17_canon_idempotent.
+Print Assumptions C17_source_is_model_digest.
+Print Assumptions C17_source_is_model_patchset_init.
+Print Assumptions C17_source_is_model_getitem.
+Print Assumptions C17_source_is_model_verify.
+Print Assumptions C17_source_is_model_patch_apply.
+Print Assumptions C17_source_is_model_apply.
+Print Assumptions C17_apply_is_patch_of_verified.
+Print Assumptions C17_apply_refuses_unverified.
